@@ -103,7 +103,7 @@ def readWeights (bytes : List Nat) : Option (List Nat × Nat) :=
       if rest.length < header then none
       else
         let body := rest.take header
-        match Fse.readDescription body 6 12 with
+        match Fse.readDescription body 6 255 with
         | none => none
         | some (al, probs, used) =>
           if used ≥ header then none
